@@ -96,7 +96,11 @@ def run(prog, rep):
             inner_try = [x for x in h.body if isinstance(x, ast.Try)]
             reports = any(_is_report_write(ex.expand(c), f) for c in calls_in(h)) or \
                 any(_unfailing_helper(prog, f, c) for c in calls_in(h))
-            rep.check(reports or inner_try, "ESC-3", "%s: handler at line %d reports" % (f.short, h.lineno), "report.write / nested conversion",
+            # ... or only does path arithmetic and falls through to the guarded conversion that follows it in the loop body
+            falls = all(_harmless(ex.expand(c), f, lp) for c in calls_in(h)) and \
+                not any(isinstance(x, (ast.Continue, ast.Pass)) for x in h.body) and \
+                any(isinstance(x, ast.Try) and x.lineno > h.lineno for x in ast.walk(lp.ast))
+            rep.check(reports or inner_try or falls, "ESC-3", "%s: handler at line %d reports" % (f.short, h.lineno), "report.write / nested conversion",
                       "an except clause neither reports nor continues with a guarded conversion", where(f, h))
 
     # ----------------------------------------------------------------- FMT-1
